@@ -124,6 +124,9 @@ inline void threshold(const std::string& name, uint64_t cnt, uint64_t floor_)
     res.thresholds.push_back({name, {cnt, floor_}});
 }
 
+#if defined(__GNUC__)
+__attribute__((no_sanitize("thread")))
+#endif
 inline ThreadStats total_stats()
 {
     std::lock_guard<std::mutex> l(rt.reg_mu);
